@@ -85,6 +85,9 @@ def base_configs(tier: str) -> List[dict]:
     out.append(cfg([n("VSrc", {"value": 2.0}),
                     n("VNested", {"opts": {"i": 5, "t": True, "f": False, "nz": -0.0, "inf": float("inf"), "ninf": float("-inf"), "nan": float("nan"), "s": "5.0", "e": "",
                                            "n": None, "big": 10 ** 20, "m": {}}, "items": [1, 1.0, True, None, "1", [], {}], "label": "käse ✓"}), n("VSink")]))
+    # a parameters key that is present but null / empty (legal: same as no parameters for the run, its own spelling for identity)
+    out.append(cfg([n("VSrc", {"value": 2.0}), {"processor": "VMulDef", "parameters": None}, {"processor": "VProbe", "context_key": "r", "parameters": None},
+                    {"processor": "VMulDef", "parameters": {}}, n("VSink")]))
     # sweeps
     for i, sw in enumerate(SWEEPS):
         tail = [n("slice:VMulDef:FloatDataCollection", {"factor": 3.0}), n("VSum"), n("VProbe", context_key="r2")]
